@@ -176,6 +176,12 @@ func (p *Peer) SendCheckpoint(index types.ChainIndex, n *consensus.Network, time
 			err = errors.New("checkpoint has wrong index")
 		} else if r.Block.V2.Commitment != r.State.Commitment(r.Block.MinerPayouts[0].Address, r.Block.Transactions, r.Block.V2Transactions()) {
 			err = errors.New("checkpoint has wrong commitment")
+		} else if verr := consensus.ValidateOrphan(r.State, r.Block); verr != nil {
+			// the ID of a v2 block only covers its header and the commitment only
+			// binds the parent state, the miner address and the transactions: the
+			// miner payout VALUE (and the block's height field) of the peer's copy
+			// are bound by neither, so check them against the (now trusted) state
+			err = fmt.Errorf("checkpoint block is invalid: %w", verr)
 		}
 	}
 	return r.State, r.Block, err
